@@ -446,18 +446,26 @@ def intText (lo hi : Int) (t : Bytes) : Option Int :=
 structure SpecExt where
   /-- timestamps belong to C14: the canonical rendering of a timestamp text in a format, if it is one -/
   ts : TsFmt → Bytes → Option Bytes
+  /-- applied to string values before they are compared; the identity for the judge. (The driver re-runs the
+  comparison with "CR = LF" only to *name* the class of an already established failure.) -/
+  strNorm : Bytes → Bytes := id
+
+/-- XML Schema `whiteSpace = collapse` of the non-string simple types: surrounding white space is not part of
+the lexical value of a number, boolean or timestamp -/
+def trimS (t : Bytes) : Bytes := ((t.dropWhile isS).reverse.dropWhile isS).reverse
 
 /-- canonical rendering of a scalar value -/
 def scalarValue (X : SpecExt) (k : Kind Ty) (t : Bytes) : V Bytes :=
   match k with
-  | .str | .enm => .ok (115 :: hexB t)
-  | .i32 => match intText (-2147483648) 2147483647 t with | some i => .ok (105 :: (toString i).toUTF8.toList) | none => .error (.scalar "int")
-  | .i64 => match intText (-9223372036854775808) 9223372036854775807 t with
+  | .str | .enm => .ok (115 :: hexB (X.strNorm t))
+  | .i32 => match intText (-2147483648) 2147483647 (trimS t) with
+    | some i => .ok (105 :: (toString i).toUTF8.toList) | none => .error (.scalar "int")
+  | .i64 => match intText (-9223372036854775808) 9223372036854775807 (trimS t) with
     | some i => .ok (105 :: (toString i).toUTF8.toList) | none => .error (.scalar "long")
   | .bool =>
-    if t = [116, 114, 117, 101] then .ok [98, 49] else if t = [102, 97, 108, 115, 101] then .ok [98, 48]
+    if trimS t = [116, 114, 117, 101] then .ok [98, 49] else if trimS t = [102, 97, 108, 115, 101] then .ok [98, 48]
     else .error (.scalar "bool")
-  | .ts f => match X.ts f t with | some c => .ok (116 :: hexB c) | none => .error (.scalar "timestamp")
+  | .ts f => match X.ts f (trimS t) with | some c => .ok (116 :: hexB c) | none => .error (.scalar "timestamp")
   | .ref _ => .error .table
 
 /-- the value of the content `kids` (+ attributes `attrs`) of an element of kind `k`, rendered canonically:
@@ -534,7 +542,7 @@ def specValue (X : SpecExt) (tab : Ty → Option (Def Ty)) (depth : Nat) (root :
       | _ => .error .root
   | .elem n _ kids, .location r =>
     -- GetBucketLocation (`s3UnwrappedXmlOutput`): the member element is the document; empty = no constraint
-    if n = r then (scalarText kids).map fun s => if s.isEmpty then [123, 125] else 123 :: r ++ [61, 115] ++ hexB s ++ [59, 125]
+    if n = r then (scalarText kids).map fun s => if s.isEmpty then [123, 125] else 123 :: r ++ [61, 115] ++ hexB (X.strNorm s) ++ [59, 125]
     else .error .root
   | .chars _, _ => .error .root
 
